@@ -201,6 +201,7 @@ def vocab(ctx, mi, T):
       if d:
         alters.setdefault(d[0], set()).add(d[1])
   compound_boundary(ctx, fi, sorted(alters))
+  addless_needs_compound(ctx, fi, sorted(alters))
   ctx.require(len(fmts) >= 3, '_degrees_to_modifications: format strings not found')
   special = seventh_special(fn)
   pat = re.compile('^' + T['_MODIFICATION_PATTERN'] + '$')
@@ -336,6 +337,47 @@ def compound_boundary(ctx, fi, D):
            construct='boundary between simple and compound degrees', definite=True)
 
 
+def addless_needs_compound(ctx, fi, D):
+  """Location-independent: in the branch that *adds* a degree (the degree is not in the kind), a modification written without
+  the 'add' prefix - "(#9)" - is read back as an added degree only for compound degrees; for a simple degree the reader takes it
+  as an alteration of a degree that must be present.  So every add-less format ('(%s%d)') reached on the add path must lie
+  under a comparison that confines it to the compound degrees."""
+  fn = fi.node
+  want = frozenset(d for d in D if d > 7)
+  for n in ast.walk(fn):
+    if not (isinstance(n, ast.BinOp) and isinstance(n.op, ast.Mod) and isinstance(n.left, ast.Constant) and isinstance(n.left.value, str) and
+            re.match(r'^\(%s%d\)$', n.left.value)):
+      continue
+    st = n
+    pm = U.parents(fn)
+    while st is not None and not isinstance(st, ast.stmt):
+      st = pm.get(id(st))
+    conds = U.path_conditions(fn, st)
+    add_path = any(isinstance(t, ast.Compare) and isinstance(t.ops[0], ast.NotIn) and pol for t, pol in conds) and \
+        not any(isinstance(t, ast.Compare) and isinstance(t.ops[0], ast.NotEq) and pol for t, pol in conds)
+    if not add_path:
+      continue
+    confined = False
+    for t, pol in conds:
+      if isinstance(t, ast.Compare) and len(t.ops) == 1 and isinstance(t.ops[0], (ast.Lt, ast.LtE)):
+        l, r = t.left, t.comparators[0]
+        kl, kr = U.const_value(l), U.const_value(r)
+        strict = isinstance(t.ops[0], ast.Lt)
+        if isinstance(kl, int) and isinstance(r, ast.Name):
+          sel = frozenset(d for d in D if (kl < d if strict else kl <= d))
+        elif isinstance(kr, int) and isinstance(l, ast.Name):
+          sel = frozenset(d for d in D if (d < kr if strict else d <= kr))
+        else:
+          continue
+        if not pol:
+          sel = frozenset(D) - sel
+        if sel <= want:
+          confined = True
+    ctx.ob('VOCAB/addless-compound-only', fi, n, confined, 'the add-less form is written for compound degrees only' if confined else
+           'on the path that adds a degree the modification is written as %r (no "add") without the degree being confined to the compound degrees %s: "(b7)" or "(#5)" for an '
+           'absent degree is read back as an alteration, which the reader rejects or misreads' % (n.left.value, sorted(want)), construct='add-less modification on the add path', definite=True)
+
+
 def VOCAB_DEPS(ctx):
   """functions whose arrangement the writer-vocabulary rules read besides _degrees_to_modifications"""
   return [ctx.func('chord_symbols_lib:_largest_chord_kind_from_degrees'), ctx.func('chord_symbols_lib:_largest_chord_kind_from_relative_pitches'),
@@ -413,15 +455,18 @@ def tables(ctx, mi, T):
       'root_pitch': lambda fn: roles.assigned_where(fn, lambda v, st: isinstance(v, ast.Call) and dotted(v.func) == '_pitch_class_to_midi'),
       'degree': _ret_target(0), 'alter': _ret_target(1)}))
   okn = any(isinstance(n, ast.BinOp) and norm_text(n).replace(' ', '') == '(degree-1)%7+1' for n in ast.walk(cp.node))
-  ctx.ob('TAB/normalise', cp, cp.node, okn, 'compound degrees are reduced with (degree - 1) % 7 + 1' if okn else 'compound degrees (9, 11, 13) are not reduced with (degree - 1) % 7 + 1', construct='(degree - 1) % 7 + 1')
+  ctx.ob('PITCH/normalise', cp, cp.node, okn, 'compound degrees are reduced with (degree - 1) % 7 + 1' if okn else 'compound degrees (9, 11, 13) are not reduced with (degree - 1) % 7 + 1', construct='(degree - 1) % 7 + 1')
   ret = cp.node.body[-1]
   okr = False
   if isinstance(ret, ast.Return) and isinstance(ret.value, ast.ListComp) and isinstance(ret.value.elt, ast.BinOp) and isinstance(ret.value.elt.op, ast.Mod):
     try:
-      okr = U.const_value(ret.value.elt.right) == 12 and nf.rat(ret.value.elt.left).equals(nf.rat(ast.parse('root_pitch + _DEGREE_OFFSETS[degree] + alter', mode='eval').body))
+      got = nf.rat(ret.value.elt.left)
+      okr = U.const_value(ret.value.elt.right) == 12 and (
+          got.equals(nf.rat(ast.parse('root_pitch + _DEGREE_OFFSETS[degree] + alter', mode='eval').body)) or
+          got.equals(nf.rat(ast.parse('root_pitch + _DEGREE_OFFSETS[(degree - 1) % 7 + 1] + alter', mode='eval').body)))
     except nf.NFError:
       okr = False
-  ctx.ob('TAB/pitch-formula', cp, ret, okr, 'pitch class = (root + degree offset + alteration) % 12' if okr else 'chord_symbol_pitches does not compute (root + offset[degree] + alter) % 12')
+  ctx.ob('PITCH/formula', cp, ret, okr, 'pitch class = (root + degree offset + alteration) % 12' if okr else 'chord_symbol_pitches does not compute (root + offset[degree] + alter) % 12')
   # quality triads vs the first four kind rows
   q = ctx.func('chord_symbols_lib:chord_symbol_quality')
   want = {}
